@@ -50,6 +50,8 @@ func errClass(err error) string {
 
 var realStdout = os.Stdout
 
+func os_exit(code int) { os.Exit(code) }
+
 func main() {
 	out = bufio.NewWriterSize(realStdout, 1<<20)
 	defer out.Flush()
@@ -88,6 +90,8 @@ func main() {
 		cmdParse(in)
 	case "session":
 		cmdSession(in)
+	case "loop":
+		cmdLoop(in)
 	case "memops":
 		cmdMemOps(in)
 	default:
